@@ -27,6 +27,22 @@ fn p3(pts: &[Vec<f64>]) -> Vec<Point3D> {
 
 type R = Result<Vec<usize>, String>;
 
+/// With probability 1/25 some coordinates are replaced by finite values whose squares overflow f64
+/// (|x| >= 1e154).  Rcb copes with them; the algorithms that build an oriented bounding box from the
+/// inertia matrix do not (known finding `obb-coordinate-overflow`).
+fn maybe_huge(r: &mut Rng, pts: &mut Vec<Vec<f64>>) -> bool {
+    if pts.is_empty() || !r.chance(1, 25) {
+        return false;
+    }
+    let k = 1 + r.below(2) as usize;
+    for _ in 0..k {
+        let i = r.below(pts.len() as u64) as usize;
+        let j = r.below(pts[i].len() as u64) as usize;
+        pts[i][j] = *r.pick(&[1e160, -1e160, 3e200, -2.5e155, 1e300]);
+    }
+    true
+}
+
 fn main() {
     let a = parse_args();
     quiet_panics();
@@ -62,11 +78,16 @@ fn main() {
         let mut input = String::new();
         let parts: usize;
         let fam: String;
+        let mut kf: Option<&str> = None;
         let seedling = r.next();
         let run: Box<dyn FnOnce() -> R + Send> = match alg {
             "rcb2" | "rcb3" | "rib2" | "rib3" => {
                 let d = if alg.ends_with('2') { 2 } else { 3 };
-                let (pf, pts) = gen::points(&mut r, n, d);
+                let (pf, mut pts) = gen::points(&mut r, n, d);
+                let huge = maybe_huge(&mut r, &mut pts);
+                if huge && alg.starts_with("rib") {
+                    kf = Some("obb-coordinate-overflow");
+                }
                 let iter = r.range(0, 6) as usize;
                 let tol = *r.pick(&[0.0, 0.01, 0.05, 0.1, 0.25, 0.5]);
                 let fw = r.chance(1, 3);
@@ -103,7 +124,10 @@ fn main() {
             }
             "hilbert2" | "hilbert3" => {
                 let d = if alg.ends_with('2') { 2 } else { 3 };
-                let (pf, pts) = gen::points(&mut r, n, d);
+                let (pf, mut pts) = gen::points(&mut r, n, d);
+                if maybe_huge(&mut r, &mut pts) {
+                    kf = Some("obb-coordinate-overflow");
+                }
                 let k = match r.below(4) {
                     0 => n + 1 + r.below(3) as usize,
                     _ => r.range(1, n.max(1) as i64) as usize,
@@ -133,7 +157,10 @@ fn main() {
             }
             "zcurve2" | "zcurve3" => {
                 let d = if alg.ends_with('2') { 2 } else { 3 };
-                let (pf, pts) = gen::points(&mut r, n, d);
+                let (pf, mut pts) = gen::points(&mut r, n, d);
+                if maybe_huge(&mut r, &mut pts) {
+                    kf = Some("obb-coordinate-overflow");
+                }
                 let k = match r.below(4) {
                     0 => n + 1 + r.below(3) as usize,
                     _ => r.range(1, n.max(1) as i64) as usize,
@@ -288,8 +315,9 @@ fn main() {
             _ => n,
         };
         let coq = format!("mk01 {} {} {} {}", alg_code, parts, expect_len, coq_res);
+        let kfj = kf.map(|k| format!(",\"kf\":\"{k}\"")).unwrap_or_default();
         let json = format!(
-            "{{\"alg\":\"{alg}\",\"threads\":{threads},{params}{}{input},\"impl\":{json_res}}}",
+            "{{\"alg\":\"{alg}\",\"threads\":{threads},{params}{}{input},\"impl\":{json_res}{kfj}}}",
             if input.is_empty() { "" } else { "," }
         );
         let key = format!("{alg}|{threads}|{params}|{input}");
